@@ -147,7 +147,7 @@ func familyEntries(fam string) []string {
 	case "fields":
 		return []string{"ConvertUnknownFields", "Binary.Skip", "Base.FastRead"}
 	case "frame":
-		return []string{"ttheader.DecodeFromBytes"}
+		return []string{"ttheader.DecodeFromBytes", "ttheader.IsStreaming"}
 	}
 	return nil
 }
